@@ -1,24 +1,28 @@
 /* C18 -- the catalogue compiler: ev_spec.c (ev_spec_compile, parse_signature, parse_args,
  * parse_arg, parse_type) and model_evspec.c (model_evspec_init, model_evspec_find).
  *
- * BOUNDED and COMPOSITIONAL.  A fully symbolic signature string run through the real
- * tokenising code does not finish (plain CBMC, 16-byte signature, no DFCC: > 5 min in symbolic
- * execution alone: every parse_arg writes at a symbolic offset of the 1.7 KB definition).  So:
- *   parse_arg_n<k>   the real parse_arg on an arbitrary token (<= 11 chars) appended to a
- *                    definition that already holds k arguments; concrete strtok_r model;
- *                    k = 0, 15, 16 with the strong contract (type names <-> sizes, MAX_ARGS guard),
- *                    k = 0..3 with the self-contained contract cr_parse_arg used below;
- *   ev_spec_compile  the real ev_spec_compile / parse_signature / parse_args on an arbitrary
- *                    signature (<= C18_SIGN bytes) where parse_arg is replaced by cr_parse_arg
- *                    and strtok_r is ABSTRACT (yields at most 4 tokens, anywhere): MCV, jumbo
- *                    flag, cumulative offsets, payload size, refused classes.
- *   model_evspec_init  see below.
- * The real catalogue (every signature of the eight model_evlist[]) is covered completely by
- * the native groups (catalogue_<model>.evlist_wellformed); arbitrary signatures longer than
- * the bound or with more than 4 arguments are NOT decided.
+ * BOUNDED and PARTIAL.  A fully symbolic signature run through the real tokenising loop of
+ * parse_args does not finish (measured: plain CBMC without DFCC, 16-byte signature: > 5 min in
+ * symbolic execution alone -- every parse_arg writes at a symbolic offset of the 1.7 KB
+ * definition; with parse_arg replaced by its contract and an abstract strtok_r: out of memory in
+ * DFCC's write-set inclusion checks).  What IS proved here:
+ *   parse_arg_n<k>        the real parse_arg / parse_type on an ARBITRARY token (<= 11 chars) appended
+ *                         to a definition that already holds k arguments (k = 0,1,2,3,15,16): offset =
+ *                         payload declared so far, size = size of the type, the nine type names and
+ *                         nothing else, MAX_ARGS guard, earlier arguments untouched;
+ *   ev_spec_compile_head  the real ev_spec_compile / parse_signature for EVERY signature (<= C18_SIGN
+ *                         bytes) that has no argument list: accepted iff three printable characters
+ *                         and nothing else; MCV, flags, empty payload; the refused classes;
+ *                         parse_args is proved unreachable there (contract with requires(false));
+ *   model_evspec_init     duplicate / model character / compile failure on a two-entry catalogue.
+ * NOT decided by CBMC: parse_args' loop over a symbolic argument list (cumulative offsets over
+ * several arguments follow from parse_arg's contract by induction on the loop -- argued, not
+ * machine-checked).  The real catalogue (every signature of the eight model_evlist[]) is covered
+ * completely by the native groups (catalogue_<model>.evlist_wellformed recomputes offsets, sizes,
+ * types and names independently); sample malformed argument lists by native group evspec_native.
  *
  * Trusted stubs (libc, outside the unit):
- *   strtok_r   POSIX.1-2008 hand model (CBMC ships no body) / abstract variant
+ *   strtok_r   POSIX.1-2008 hand model (CBMC ships no body)
  *   snprintf   the two "%s" uses of the compile path: returns strlen (C99 7.19.6.5); the
  *              256-byte working copy is copied, an argument name gets arbitrary characters
  *   isgraph    C locale: 0x21..0x7e
@@ -36,26 +40,6 @@
 #define isalnum(c) (((c) >= '0' && (c) <= '9') || ((c) >= 'a' && (c) <= 'z') || ((c) >= 'A' && (c) <= 'Z'))
 
 char *m_tok_base;
-unsigned m_tok_n;           /* tokens handed out (abstract variant) */
-#ifdef C18_ABSTRACT_TOK
-/* strtok_r, abstract: at most C18_MAXTOK tokens; a token is some place of the string being split.
- * Nothing in the groups that use this variant reads a token (parse_arg is replaced by its
- * contract), so "which token" is left completely open: sound for every tokenisation. */
-#define C18_MAXTOK 4
-char *strtok_r(char *s, const char *delim, char **save)
-{
-	(void) delim;
-	if (s != NULL) {
-		m_tok_base = s;
-		m_tok_n = 0;
-	}
-	*save = m_tok_base;
-	if (m_tok_n >= C18_MAXTOK || nondet_bool())
-		return NULL;
-	m_tok_n++;
-	return m_tok_base;
-}
-#else
 /* strtok_r, POSIX.1-2008.  Written over CONSTANT indices relative to the start of the string being
  * split (a pointer walked through a symbolic string makes every access a symbolic-offset access).
  * m_tok_base is the first string handed to strtok_r; the model asserts that later calls stay in it. */
@@ -92,7 +76,6 @@ char *strtok_r(char *s, const char *delim, char **save)
 	__CPROVER_assert(0, "strtok_r model: string ends within the bound");
 	return NULL;
 }
-#endif
 
 /* snprintf(s, n, "%s", arg): returns strlen(arg) (C99 7.19.6.5).  The 256-byte working copy of the
  * signature (n == 256) is copied faithfully; for the 64-byte argument name only the terminator is placed
@@ -142,7 +125,7 @@ static int c18_snprintf(char *s, size_t n, const char *fmt, const char *arg)
 
 /* ====================================================================================
  * parse_arg: one "type name" token appended to a definition that holds C18_NARGS arguments
- * (fixed per group: a symbolic index into spec->args[] does not finish)
+ * (fixed per group: with a symbolic index into spec->args[] the solver runs out of memory)
  * ==================================================================================== */
 #define ARGN 12
 #ifndef C18_NARGS
@@ -150,7 +133,6 @@ static int c18_snprintf(char *s, size_t n, const char *fmt, const char *arg)
 #endif
 _Static_assert(C18_NARGS >= 0 && C18_NARGS <= MAX_ARGS, "definition with 0..MAX_ARGS arguments");
 
-/* --- (a) strong, enforce-only contract --- */
 int g_n0; unsigned long g_ps0; int g_j;   /* pre-state, and an arbitrary earlier argument */
 unsigned long g_joff, g_jsize;
 int w_nargs; char w_arg[ARGN];
@@ -207,89 +189,52 @@ void h_parse_arg(void)
 #endif
 }
 
-/* --- (b) self-contained contract (only __CPROVER_old of plain fields): what ev_spec_compile's group assumes
- *         at each call.  Same assigns/ensures text for the proof and for the replacement (CR_PARSE_ARG_POST);
- *         the replacement ASSERTS at every call site that the definition holds 0..3 arguments, the values for
- *         which the r_parse_arg_n<k> groups prove it. --- */
-#define CR_PARSE_ARG_POST \
-	__CPROVER_assigns(spec->nargs, spec->payload_size, spec->args[spec->nargs], __CPROVER_object_whole(arg), DIAG_FRAME, m_tok_base) \
-	__CPROVER_ensures(RET == 0 || RET == -1) \
-	__CPROVER_ensures(IMPLIES(RET == 0, spec->nargs == OLD(spec->nargs) + 1)) \
-	__CPROVER_ensures(IMPLIES(RET == 0, spec->args[OLD(spec->nargs)].offset == OLD(spec->payload_size))) \
-	__CPROVER_ensures(IMPLIES(RET == 0, (unsigned) spec->args[OLD(spec->nargs)].type < MAX_TYPE && \
-		spec->args[OLD(spec->nargs)].size == SIZE_OF_TYPE(spec->args[OLD(spec->nargs)].type))) \
-	__CPROVER_ensures(IMPLIES(RET == 0, spec->payload_size == OLD(spec->payload_size) + spec->args[OLD(spec->nargs)].size)) \
-	__CPROVER_ensures(IMPLIES(RET != 0, spec->nargs == OLD(spec->nargs) && spec->payload_size == OLD(spec->payload_size) && g_err > OLD(g_err)))
-#define CR_NARGS_PROVED(n) ((n) >= 0 && (n) <= 3)
-
-int ce_parse_arg(struct ev_spec *spec, char *arg)      /* proved by r_parse_arg_n0..3 */
-__CPROVER_requires(__CPROVER_is_fresh(spec, sizeof(*spec)) && __CPROVER_is_fresh(arg, ARGN) && arg[ARGN - 1] == '\0')
-__CPROVER_requires(spec->nargs == C18_NARGS && CR_NARGS_PROVED(spec->nargs) && spec->payload_size <= 4 + 8 * MAX_ARGS && DIAG_PRE && m_tok_base == NULL)
-__CPROVER_requires(w_nargs == spec->nargs)
-CR_PARSE_ARG_POST
-;
-int cr_parse_arg(struct ev_spec *spec, char *arg)      /* assumed in ev_spec_compile */
-__CPROVER_requires(spec != NULL && arg != NULL && CR_NARGS_PROVED(spec->nargs) && spec->payload_size <= 4 + 8 * MAX_ARGS && DIAG_PRE)
-CR_PARSE_ARG_POST
-;
-void h_r_parse_arg(void)
-{
-	struct ev_spec *spec; char *arg;
-	int r = parse_arg(spec, arg);
-	if (r == 0 && w_nargs == C18_NARGS) REACH("argument accepted");
-	if (r != 0) REACH("bad token refused");
-}
-
 /* ====================================================================================
- * ev_spec_compile: any signature of up to C18_SIGN-1 characters, at most 4 argument tokens
+ * ev_spec_compile on signatures WITHOUT an argument list (any content, up to C18_SIGN-1 chars)
  * ==================================================================================== */
-int g_k;                   /* arbitrary argument index (single-cell observer) */
+/* parse_args must not be reached for these signatures: its contract demands the impossible, and
+ * DFCC asserts a replaced callee's precondition at the call site. */
+int cr_parse_args_unreached(struct ev_spec *spec, char *paren)
+__CPROVER_requires(0)
+__CPROVER_assigns()
+__CPROVER_ensures(1)
+;
 char w_sig[8];
 WITNESS(ev_spec_compile);
 #define SIG(i) (decl->signature[i])
 #define SHORT3 (SIG(0) == '\0' || SIG(1) == '\0' || SIG(2) == '\0')
 #define GRAPH3 (isgraph(SIG(0)) && isgraph(SIG(1)) && isgraph(SIG(2)))
+/* an argument list starts: "MCV(" or "MCV+(" */
+#define HAS_ARGLIST (!SHORT3 && (SIG(3) == '(' || (SIG(3) == '+' && SIG(4) == '(')))
 
 int c_ev_spec_compile(struct ev_spec *spec, struct ev_decl *decl)
 __CPROVER_requires(__CPROVER_is_fresh(spec, sizeof(*spec)) && __CPROVER_is_fresh(decl, sizeof(*decl)))
 __CPROVER_requires(__CPROVER_is_fresh(decl->signature, C18_SIGN) && decl->signature[C18_SIGN - 1] == '\0' && DIAG_PRE)
-__CPROVER_requires(g_k >= 0 && g_k < MAX_ARGS)
+__CPROVER_requires(!HAS_ARGLIST)
 __CPROVER_requires(WBIND(ev_spec_compile, w_sig[0] == SIG(0) && w_sig[1] == SIG(1) && w_sig[2] == SIG(2) && w_sig[3] == SIG(3) &&
 	w_sig[4] == SIG(4) && w_sig[5] == SIG(5)))
-__CPROVER_assigns(__CPROVER_object_whole(spec), DIAG_FRAME, m_tok_base, m_tok_n)
+__CPROVER_assigns(__CPROVER_object_whole(spec), DIAG_FRAME)
 __CPROVER_ensures(RET == 0 || RET == -1)
-/* --- malformed signatures are refused --- */
-__CPROVER_ensures(IMPLIES(SHORT3, RET == -1))                                           /* fewer than three characters */
-__CPROVER_ensures(IMPLIES(!SHORT3 && !GRAPH3, RET == -1))                               /* unprintable model/category/value */
-__CPROVER_ensures(IMPLIES(!SHORT3 && SIG(3) != '\0' && SIG(3) != '+' && SIG(3) != '(', RET == -1)) /* junk after the MCV */
-__CPROVER_ensures(IMPLIES(!SHORT3 && SIG(3) == '+' && SIG(4) != '(', RET == -1))        /* jumbo without arguments */
+/* accepted exactly for three printable characters and nothing behind them */
+__CPROVER_ensures((RET == 0) == ((!SHORT3 && GRAPH3 && SIG(3) == '\0') ? 1 : 0))
+/* i.e. refused: fewer than three characters; an unprintable model/category/value; junk after the MCV;
+ * a jumbo mark without arguments ("MCV+", "MCV+x") */
 __CPROVER_ensures(IMPLIES(RET != 0, g_err > OLD(g_err)))
-/* --- accepted: the definition is the signature --- */
+/* accepted: the definition is the signature, no arguments, no payload */
 __CPROVER_ensures(IMPLIES(RET == 0, spec->mcv[0] == SIG(0) && spec->mcv[1] == SIG(1) && spec->mcv[2] == SIG(2) && spec->mcv[3] == '\0'))
-__CPROVER_ensures(IMPLIES(RET == 0, spec->is_jumbo == (SIG(3) == '+' ? 1 : 0)))
-__CPROVER_ensures(IMPLIES(RET == 0, spec->nargs >= 0 && spec->nargs <= MAX_ARGS))
-/* arguments exactly when there is a parenthesis; "(...)" without any argument is refused */
-__CPROVER_ensures(IMPLIES(RET == 0, (spec->nargs == 0) == (SIG(3) == '\0')))
-__CPROVER_ensures(IMPLIES(RET == 0 && spec->nargs == 0, spec->payload_size == 0 && !spec->is_jumbo))
-/* offsets are cumulative: first argument after the jumbo size word, each next one right behind, total = end of the last */
-__CPROVER_ensures(IMPLIES(RET == 0 && spec->nargs > 0, spec->args[0].offset == (spec->is_jumbo ? 4u : 0u)))
-__CPROVER_ensures(IMPLIES(RET == 0 && g_k > 0 && g_k < spec->nargs, spec->args[g_k].offset == spec->args[g_k - 1].offset + spec->args[g_k - 1].size))
-__CPROVER_ensures(IMPLIES(RET == 0 && g_k < spec->nargs, (unsigned) spec->args[g_k].type < MAX_TYPE && spec->args[g_k].size == SIZE_OF_TYPE(spec->args[g_k].type)))
-__CPROVER_ensures(IMPLIES(RET == 0 && spec->nargs > 0, spec->payload_size == spec->args[spec->nargs - 1].offset + spec->args[spec->nargs - 1].size))
+__CPROVER_ensures(IMPLIES(RET == 0, spec->is_jumbo == 0 && spec->nargs == 0 && spec->payload_size == 0))
 __CPROVER_ensures(IMPLIES(RET == 0, spec->description == decl->description))
 ;
-int g_ret_nargs;
 void h_ev_spec_compile(void)
 {
 	struct ev_spec *spec; struct ev_decl *decl;
 	WITNESS_ON(ev_spec_compile);
 	int r = ev_spec_compile(spec, decl);
-	if (r == 0 && w_sig[3] == '\0') REACH("plain MCV accepted");
-	if (r == 0 && w_sig[3] == '+') REACH("jumbo accepted");
-	if (r == 0 && w_sig[3] == '(') REACH("arguments accepted");
-	if (r == 0 && m_tok_n == 4) REACH("four tokens accepted");
-	if (r != 0 && w_sig[3] == '(') REACH("bad arguments refused");
-	if (r != 0 && w_sig[3] == '\0') REACH("bad MCV refused");
+	if (r == 0) REACH("plain MCV accepted");
+	if (r != 0 && w_sig[3] == '+') REACH("jumbo without arguments refused");
+	if (r != 0 && w_sig[3] == 'x') REACH("junk after the MCV refused");
+	if (r != 0 && w_sig[2] == '\0') REACH("short signature refused");
+	if (r != 0 && w_sig[1] == ' ' && w_sig[3] == '\0') REACH("blank in the MCV refused");
 }
 
 /* ====================================================================================
@@ -303,13 +248,13 @@ WITNESS(model_evspec_init);
 #define SAME_MCV (E(0, 0) == E(1, 0) && E(0, 1) == E(1, 1) && E(0, 2) == E(1, 2))
 int c_model_evspec_init(struct model_evspec *evspec, struct model_spec *spec)
 __CPROVER_requires(__CPROVER_is_fresh(evspec, sizeof(*evspec)) && __CPROVER_is_fresh(spec, sizeof(*spec)))
-__CPROVER_requires(__CPROVER_is_fresh(spec->evlist, 3 * sizeof(struct ev_decl)) && DIAG_PRE && m_tok_base == NULL)
+__CPROVER_requires(__CPROVER_is_fresh(spec->evlist, 3 * sizeof(struct ev_decl)) && DIAG_PRE)
 __CPROVER_requires(__CPROVER_is_fresh(spec->evlist[0].signature, 4) && spec->evlist[0].signature[3] == '\0')
 __CPROVER_requires(__CPROVER_is_fresh(spec->evlist[1].signature, 4) && spec->evlist[1].signature[3] == '\0')
 __CPROVER_requires(spec->evlist[2].signature == NULL)
 __CPROVER_requires(WBIND(model_evspec_init, w_model == spec->model && w_a[0] == E(0, 0) && w_a[1] == E(0, 1) && w_a[2] == E(0, 2) &&
 	w_b[0] == E(1, 0) && w_b[1] == E(1, 1) && w_b[2] == E(1, 2)))
-__CPROVER_assigns(__CPROVER_object_whole(evspec), DIAG_FRAME, m_tok_base)
+__CPROVER_assigns(__CPROVER_object_whole(evspec), DIAG_FRAME)
 __CPROVER_ensures(RET == 0 || RET == -1)
 __CPROVER_ensures(IMPLIES(GRAPH_E(0) && GRAPH_E(1) && SAME_MCV, RET == -1))                               /* duplicate MCV */
 __CPROVER_ensures(IMPLIES(GRAPH_E(0) && E(0, 0) != spec->model, RET == -1))                               /* model character */
